@@ -536,6 +536,19 @@ def spd(rng, n, kind=None):
     return P
 
 
+def collision_twins(rng, defn, pt):
+    """Two points for consecutive calls that differ only where one has -1.0 and the other -2.0 (and 0.0 /
+    -0.0): distinct inputs that CPython hashes alike (hash(-1.0) == hash(-2.0)), the classic way a memo
+    keyed on hash(args) returns the previous call's intermediate values."""
+    names = list(defn["state"]) + list(defn["control"])
+    k = rng.randint(1, max(1, min(3, len(names))))
+    chosen = rng.sample(names, k)
+    pa, pb = dict(pt), dict(pt)
+    for n in chosen:
+        pa[n], pb[n] = -1.0, -2.0
+    return pa, pb
+
+
 def typed_cov(rng, P, p=0.25):
     """Sometimes the caller's covariance is not a float64 array: np.diag([4, 1, 9]) is int64, sensor
     pipelines carry float32.  -> (matrix as float64 values, dtype or None); the values are exactly
